@@ -35,6 +35,12 @@ func execSctpCAnswer(toks []string) string {
 	if len(streams) == 0 || rounds < 1 {
 		return "badinput"
 	}
+	fwd := -1
+	if v, ok := kvGet(toks, "fwd"); ok {
+		if k, err := strconv.Atoi(v); err == nil {
+			fwd = k
+		}
+	}
 	be := newSCTPBackend(nil, nil)
 	msc := diam.NewVerifSCTPConn(be)
 	defer diam.VerifReleaseSCTPConn(msc)
@@ -49,6 +55,12 @@ func execSctpCAnswer(toks []string) string {
 		arrived++
 		b := barrier
 		mu.Unlock()
+		// fwd=<u>: a relay - the request is first passed on to another (multistream) peer, on
+		// stream u of THAT association, and then answered
+		if fwd >= 0 {
+			up := &fakeMS{cur: diam.InvalidStreamID}
+			m.WriteToStream(up, uint(fwd))
+		}
 		a := m.Answer(2001)
 		a.NewAVP(264, 0x40, 0, datatype.DiameterIdentity("srv"))
 		go func() { // the application answers from a goroutine of its own
@@ -137,6 +149,9 @@ func genSctpCAnswer(r *RNG, n int, emit func(string)) {
 		line := fmt.Sprintf("sctp canswer streams=%s rounds=%d", strings.Join(ss, "."), 3+r.Intn(10))
 		if r.Chance(40) {
 			line += fmt.Sprintf(" pin=%d", r.Intn(12))
+		}
+		if r.Chance(35) {
+			line += fmt.Sprintf(" fwd=%d", []int{0, 1, 7, 9, 65535}[r.Intn(5)])
 		}
 		emit(line)
 	}
